@@ -143,7 +143,7 @@ def _case(draw, tier):
         fault["k"] = draw(st.integers(1, 4))
     else:
         fault["frac"] = draw(st.integers(0, 1000))  # position in [1..M] as a fraction
-    return {"desc": desc, "backend": b, "hashing": draw(st.booleans()), "fault": fault,
+    return {"desc": desc, "invoke": draw(gen.invoke()), "backend": b, "hashing": draw(st.booleans()), "fault": fault,
             "second_round": draw(st.booleans()), "earlier_purged": draw(st.sampled_from([False, False, True])),
             "start_some": draw(st.booleans())}
 
@@ -190,7 +190,7 @@ def run_case(case):
     cfg = {"use_spec_hashes": True} if case["hashing"] else {}
     viols, labels = [], {"backend-" + b, "fault-" + fault["type"]}
     sub = SUBMIT[b]
-    with project.Project(desc, backend=b, config=cfg) as proj:
+    with project.Project(desc, backend=b, config=cfg, invoke=case.get("invoke")) as proj:
         R = model.Resolved(desc)
         names = [t.name for t in R.targets]
         # everything stale: sources exist, outputs missing
